@@ -220,6 +220,8 @@ func (w *parseWork) seededCall(r *simrt.RNG, thorough bool) pparse.Call {
 			}
 		}
 		return pparse.Call{Entry: entry, Input: s, Kind: kind}
+	case x < 55:
+		return pparse.Call{Entry: "file", Input: corpus.Skeleton(r), Kind: "skeleton"}
 	case x < 70:
 		n := 1 + r.Intn(5)
 		if thorough {
